@@ -18,4 +18,7 @@ def run(tier):
     for rel, q, c in OW.LI_ITEMS:
         reps.append(deductive.verify_function(rel, q, c, hooks=OW.hooks_for(c), prefix='%s::%s[total handed on]' % (rel, q)))
     reps += OW.fg_frame_reports()
+    # lemmas over the verified formula: exact on noise-free answers; minimum variance among linear combinations (instances n = 2, 3)
+    reps.append(deductive.lemma_report(('total-estimate-exact-when-noise-free', 'inverse-variance-weights-minimise-the-variance[n=2,3]'),
+                                       title='lemmas over the verified total-estimate formula'))
     return reps
